@@ -339,6 +339,7 @@ func ParseInstalled(installed io.Reader) ([]*InstalledPackage, error) { //nolint
 				Typeflag: tar.TypeDir,
 			}
 			pkg.Files = append(pkg.Files, *lastDir)
+			lastDir = &pkg.Files[len(pkg.Files)-1]
 			lastFile = nil
 		case "M":
 			// directory perms if not 0o755
@@ -364,6 +365,7 @@ func ParseInstalled(installed io.Reader) ([]*InstalledPackage, error) { //nolint
 				Gid:  0,
 			}
 			pkg.Files = append(pkg.Files, *lastFile)
+			lastFile = &pkg.Files[len(pkg.Files)-1]
 		case "a":
 			// file perms if not 0o644
 			if lastFile == nil {
